@@ -458,7 +458,9 @@ impl<'a, T> ChordsV2<'a, T> {
             self.ticks_until_next_state_change = min_timeout.saturating_sub(since);
             prev_count = count_possible;
         }
-        if self.ticks_until_next_state_change == 0 || relevant_release_found {
+        if self.active_chords.len() == prev_active_chords_len
+            && (self.ticks_until_next_state_change == 0 || relevant_release_found)
+        {
             // Find a chord that matches exactly and activate that,
             // otherwise clear the input queue.
             let completed_chord = if chord_candidates.is_full() {
